@@ -52,6 +52,10 @@ impl<'a> SendLastStateProofProcess<'a> {
         };
 
         let last_header: VerifiableHeader = self.message.last_header().to_entity().into();
+        if !last_header.is_total_difficulty_valid() {
+            let errmsg = "total difficulty of the last header is overflow";
+            return StatusCode::InvalidTotalDifficulty.with_context(errmsg);
+        }
 
         // Update the last state if the response contains a new one.
         if !original_request.is_same_as(&last_header) {
@@ -696,6 +700,12 @@ pub(crate) fn check_if_response_is_matched(
     if headers.is_empty() {
         let errmsg = "headers should NOT be empty";
         return Err(StatusCode::MalformedProtocolMessage.with_context(errmsg));
+    }
+
+    // Total difficulty for all headers should be valid.
+    if headers.iter().any(|h| !h.is_total_difficulty_valid()) {
+        let errmsg = "total difficulties of headers should NOT be overflow";
+        return Err(StatusCode::InvalidTotalDifficulty.with_context(errmsg));
     }
 
     // Headers should be sorted.
